@@ -74,12 +74,27 @@ class Ctx:
 
         Exceptions raised by *my* code (oracles, generators) must not go through
         here: they propagate and are reported as harness errors (exit 2)."""
+        import signal
+        armed = False
+        if CASE_TIME_LIMIT > 0 and hasattr(signal, "setitimer") and not getattr(self, "_in_call", False):
+            try:
+                old = signal.signal(signal.SIGALRM, _alarm)
+                signal.setitimer(signal.ITIMER_REAL, CASE_TIME_LIMIT)
+                armed = True
+                self._in_call = True
+            except ValueError:      # not in the main thread
+                armed = False
         try:
             return fn(*a, **k)
         except (Violation, Skip):
             raise
         except Exception as e:  # noqa: BLE001 - classified below
             raise Violation(exc_signature(e), "%s: %s" % (type(e).__name__, e))
+        finally:
+            if armed:
+                signal.setitimer(signal.ITIMER_REAL, 0)
+                signal.signal(signal.SIGALRM, old)
+                self._in_call = False
 
     def raises(self, exc_types, fn, *a, **k):
         """The documented outcome is an exception of one of exc_types."""
@@ -132,31 +147,20 @@ def run_case(clause, case):
     outcome in {"ok", "violation", "skip"}; any other exception propagates."""
     ctx = Ctx()
     out = {"outcome": "ok", "sig": None, "msg": "", "skip": None}
-    import signal
-    use_alarm = hasattr(signal, "setitimer") and CASE_TIME_LIMIT > 0
-    if use_alarm:
-        try:
-            old = signal.signal(signal.SIGALRM, _alarm)
-            signal.setitimer(signal.ITIMER_REAL, CASE_TIME_LIMIT)
-        except ValueError:      # not in the main thread
-            use_alarm = False
     import contextlib
     import io
     try:
         with contextlib.redirect_stdout(io.StringIO()):   # persim prints notices ("Bad choice of grid ...")
             clause.check(case, ctx)
     except CaseTimeout:
-        # typical cases take milliseconds; no result after minutes is reported as non-termination
+        # raised by the watchdog inside Ctx.call, i.e. while the CODE UNDER TEST was running (never while an oracle runs):
+        # typical calls take milliseconds; no result after minutes is reported as non-termination
         out.update(outcome="violation", sig="%s/no_result_within_%ds" % (clause.name, CASE_TIME_LIMIT),
-                   msg="the call did not return within %d s (typical case: milliseconds) - non-termination" % CASE_TIME_LIMIT)
+                   msg="the call did not return within %d s (typical call: milliseconds) - non-termination" % CASE_TIME_LIMIT)
     except Violation as v:
         out.update(outcome="violation", sig="%s/%s" % (clause.name, v.sig), msg=v.msg[:600])
     except Skip as s:
         out.update(outcome="skip", skip=s.reason)
-    finally:
-        if use_alarm:
-            signal.setitimer(signal.ITIMER_REAL, 0)
-            signal.signal(signal.SIGALRM, old)
     out["labels"] = ctx.labels
     out["value"] = ctx.cross_value
     out["nontrivial"] = ctx.is_nontrivial and out["outcome"] != "skip"
